@@ -93,6 +93,8 @@ func runJudge(t *testing.T, j *Judge) {
 		}
 	}()
 	kf := known.Load()
+	OnExclude = func(id string) { col.Exclude(id) }
+	defer func() { OnExclude = nil }()
 	rapid.Check(t, func(rt *rapid.T) {
 		s := GenProject(rt, j.Profile)
 		if j.Prepare != nil {
